@@ -290,6 +290,86 @@ def battery():
     return out
 
 
+def boundary_variants(opt):
+    """validator-accepted configurations with ONE parameter at (or near) the edge of what the config model accepts, or
+    with a two-element range given in reversed order.  The real config model is the validity oracle."""
+    base = dict(base_configs()[opt])
+    fields = env.config_class(opt).model_fields
+    out = []
+    seen = set()
+
+    def add(k, v):
+        trial = dict(base)
+        trial[k] = v
+        key = json.dumps([k, v], sort_keys=True, default=str)
+        if key not in seen and trial != base and config_valid(opt, trial):
+            seen.add(key)
+            out.append((k, trial))
+            return True
+        return False
+
+    for k in sorted(fields):
+        if k in ("population_size", "max_cycles", "fitness_error", "early_stopping"):
+            continue
+        v = base.get(k, fields[k].default)
+        if isinstance(v, bool) or v is None:
+            continue
+        if isinstance(v, int):
+            for c in (0, 1, 2, v // 2):                      # smallest accepted value
+                if add(k, c):
+                    break
+            for c in (v * 4, v * 3, v * 2, v + 5, v + 2):    # a large accepted value
+                if add(k, c):
+                    break
+        elif isinstance(v, float):
+            for c in (0.0, 1e-9, v / 10.0, v / 2.0):
+                if add(k, c):
+                    break
+            for c in (v * 10.0, v * 2.0, 1.0, 0.999):
+                if add(k, c):
+                    break
+        elif isinstance(v, list) and len(v) == 2 and all(isinstance(e, (int, float)) for e in v):
+            for c in ([v[1], v[0]], [v[1], v[1] / 2.0], [v[1] * 2.0, v[1]], [abs(v[0]) + abs(v[1]), abs(v[1]) / 2.0]):
+                if c[0] > c[1] and add(k, c):                # a range given in descending order
+                    break
+            add(k, [v[0], v[0]])                             # degenerate range
+    return out
+
+
+_BOUNDARY = None
+
+
+def boundary_battery():
+    """pinned battery over the boundary configurations: deterministic (seeded, serial), audited (audit/boundary_v2.json)"""
+    global _BOUNDARY
+    if _BOUNDARY is not None:
+        return _BOUNDARY
+    out = []
+    tasks_ = [
+        {"vars": [["cm", [-10.0, -10.0, -10.0], [10.0, 10.0, 10.0]]], "obj": [{"fam": "rastrigin", "p": {"shift": 0.2}}], "minmax": "min"},
+        {"vars": [["c", 0.0, 5.0], ["c", -100.0, 100.0]], "obj": [{"fam": "sphere", "p": {"shift": 0.3}}], "minmax": "max"},
+        {"vars": [["cm", [-5.0, -5.0, -5.0, -5.0, -5.0], [5.0, 5.0, 5.0, 5.0, 5.0]]], "obj": [{"fam": "sphere", "p": {"shift": 0.3}}], "minmax": "min"},
+        {"vars": [["c", -3.0, 7.0]], "obj": [{"fam": "abs", "p": {"shift": 0.3}}], "minmax": "min"},
+    ]
+    for rep in range(4):          # rep 0: used by every campaign check; reps 1-3 (other seeds, longer): C10 and C17 only
+        for a, opt in enumerate(opt_names()):
+            for b, (k, cfg) in enumerate(boundary_variants(opt)):
+                for t, task in enumerate(tasks_):
+                    cfg2 = dict(cfg, fitness_error=None, max_cycles=6 if rep == 0 else 10)
+                    if not config_valid(opt, cfg2):
+                        continue
+                    spec = {"vars": task["vars"], "obj": task["obj"], "weights": None, "minmax": task["minmax"],
+                            "seed": 70000 + 100 * a + 10 * b + t + 1000000 * rep}
+                    out.append({"i": f"v{len(out)}", "opt": opt, "cfg": cfg2, "cfg_class": "boundary:" + k, "spec": spec,
+                                "mode": "serial", "workers": None, "rep": rep})
+    _BOUNDARY = out
+    return out
+
+
+def boundary_indices(all_reps=False):
+    return [k for k, c in enumerate(boundary_battery()) if all_reps or c["rep"] == 0]
+
+
 def battery_inf():
     """objectives with non-finite values (death penalty: +inf for min tasks, -inf for max tasks outside a feasible box).
     Used by C02 only: cost/fitness truth must also hold for infinite objective values.  Not part of the universe because
